@@ -73,7 +73,8 @@ namespace xsimd
             auto test = x > constants::oneotwoeps<batch_type>();
             batch_type z = select(test, self, x + sqrt(x + x + x * x));
             batch_type l1pz = log1p(z);
-            return select(test, l1pz + constants::log_2<batch_type>(), l1pz);
+            // arguments below 1 are outside the domain (for large negative ones the formula above yields +-inf or 0)
+            return select(self < batch_type(1.), constants::nan<batch_type>(), select(test, l1pz + constants::log_2<batch_type>(), l1pz));
         }
         template <class A, class T>
         XSIMD_INLINE batch<std::complex<T>, A> acosh(const batch<std::complex<T>, A>& z, requires_arch<generic>) noexcept
